@@ -73,12 +73,12 @@ theorem C19_connection_released_or_closed_once (cf : Cfg) (hwf : cf.WF) (prog : 
   · exact .inr ⟨hp, h2 k hk hp⟩
 
 /-- the five named shapes of the quantifier are instances (read-only, optimistic write, immediate, serializable, ddl) -/
-example (fails : Nat → Bool) (g : Bool) (s : St) (h : Idle s) :
-    Idle (dbSession ⟨fails, false, false, false, g⟩ [(.query, false)] false s).2 ∧
-    Idle (dbSession ⟨fails, false, false, false, g⟩ [(.modify [false], false)] false s).2 ∧
-    Idle (dbSession ⟨fails, true, false, false, g⟩ [(.query, false), (.modify [false], false)] false s).2 ∧
-    Idle (dbSession ⟨fails, true, false, false, g⟩ [(.query, false), (.modify [false], false)] true s).2 ∧
-    Idle (dbSession ⟨fails, true, true, false, g⟩ [(.write false, false)] false s).2 :=
+example (fails : Nat → Bool) (g : Bool) (k : Nat) (s : St) (h : Idle s) :
+    Idle (dbSession { fails := fails, immediate := false, ddl := false, reconnect := false, initGuard := g, onConnect := k } [(.query, false)] false s).2 ∧
+    Idle (dbSession { fails := fails, immediate := false, ddl := false, reconnect := false, initGuard := g, onConnect := k } [(.modify [false], false)] false s).2 ∧
+    Idle (dbSession { fails := fails, immediate := true, ddl := false, reconnect := false, initGuard := g, onConnect := k } [(.query, false), (.modify [false], false)] false s).2 ∧
+    Idle (dbSession { fails := fails, immediate := true, ddl := false, reconnect := false, initGuard := g, onConnect := k } [(.query, false), (.modify [false], false)] true s).2 ∧
+    Idle (dbSession { fails := fails, immediate := true, ddl := true, reconnect := false, initGuard := g, onConnect := k } [(.write false, false)] false s).2 :=
   ⟨C19_session_end _ (by simp [Cfg.WF]) _ _ s h, C19_session_end _ (by simp [Cfg.WF]) _ _ s h,
    C19_session_end _ (by simp [Cfg.WF]) _ _ s h, C19_session_end _ (by simp [Cfg.WF]) _ _ s h,
    C19_session_end _ (by simp [Cfg.WF]) _ _ s h⟩
@@ -96,6 +96,33 @@ theorem C19_sessions (sessions : List (Cfg × List (Op × Bool) × Bool)) (hwf :
     have h1 := C19_session_end cf (hwf _ (List.mem_cons_self ..)) prog br s h
     have h2 := ih (fun y hy => hwf y (List.mem_cons_of_mem _ hy)) _ h1
     simp only [runSessions]
+    exact h2
+
+/-- `db.disconnect()` between sessions: for every oracle the thread stays idle; if `close()` does not fail the pool is empty
+    afterwards, and in any case the formerly pooled connection has been closed exactly once (accounting of `Idle`) -/
+theorem C19_disconnect (cf : Cfg) (s : St) (h : Idle s) :
+    Idle (dbDisconnect cf s).2 ∧ ((dbDisconnect cf s).1 = .ok () → (dbDisconnect cf s).2.poolCon = none) := by
+  have hI : Inv cf false false s := idle_inv h (by simp) (by simp)
+  have := spec_dbDisconnect cf false false s hI
+  unfold wp at this
+  split at this <;> rename_i heq <;> simp only [heq]
+  · exact ⟨inv_idle this.1 this.2.1, fun _ => this.2.2⟩
+  · exact ⟨inv_idle this.1.1 this.1.2, fun h => by cases h⟩
+
+/-- any sequence of sessions and `db.disconnect()` calls, each with its own options, body and oracle, leaves the thread idle -/
+theorem C19_steps (steps : List Step)
+    (hwf : ∀ st ∈ steps, match st with | .session cf _ _ => cf.WF | .disconnect _ => True) :
+    ∀ (s : St), Idle s → Idle (runSteps steps s).2 := by
+  induction steps with
+  | nil => intro s h; exact h
+  | cons st rest ih =>
+    intro s h
+    have h1 : Idle (runStep st s).2 := by
+      cases st with
+      | session cf prog br => exact C19_session_end cf (hwf _ (List.mem_cons_self ..)) prog br s h
+      | disconnect cf => exact (C19_disconnect cf s h).1
+    have h2 := ih (fun y hy => hwf y (List.mem_cons_of_mem _ hy)) _ h1
+    simp only [runSteps]
     exact h2
 
 /-- **a following session is neither blocked nor made to fail**: from any idle state in which `pool.pid` exists
@@ -133,10 +160,10 @@ theorem C19_half_initialised_pool_poisons (cf : Cfg) (s : St) (k : Nat) (hh : s.
     session of the thread fails although no DB-API call fails any more. -/
 theorem C19_later_sessions_unaffected_full_false : ¬ C19_later_sessions_unaffected_full false := by
   intro h
-  have hs : (dbSession ⟨fun i => i == 1, false, false, false, false⟩ [(.query, false)] false St.init).2.poolPid = false ∧
-      (dbSession ⟨fun i => i == 1, false, false, false, false⟩ [(.query, false)] false St.init).2.poolCon = some 0 ∧
-      (dbSession ⟨fun i => i == 1, false, false, false, false⟩ [(.query, false)] false St.init).2.hasCache = false := by decide
-  have := h ⟨fun i => i == 1, false, false, false, false⟩ ⟨fun _ => false, false, false, false, false⟩ [(.query, false)] [(.query, false)]
+  have hs : (dbSession { fails := fun i => i == 1, immediate := false, ddl := false, reconnect := false, initGuard := false } [(.query, false)] false St.init).2.poolPid = false ∧
+      (dbSession { fails := fun i => i == 1, immediate := false, ddl := false, reconnect := false, initGuard := false } [(.query, false)] false St.init).2.poolCon = some 0 ∧
+      (dbSession { fails := fun i => i == 1, immediate := false, ddl := false, reconnect := false, initGuard := false } [(.query, false)] false St.init).2.hasCache = false := by decide
+  have := h { fails := fun i => i == 1, immediate := false, ddl := false, reconnect := false, initGuard := false } { fails := fun _ => false, immediate := false, ddl := false, reconnect := false, initGuard := false } [(.query, false)] [(.query, false)]
     false St.init rfl rfl (by simp [Cfg.WF]) (by simp [Cfg.WF]) (by simp [Idle, St.init, AccF, lockState]) (by simp [PidOK, St.init])
     (by intro i _; rfl)
   rw [C19_half_initialised_pool_poisons _ _ 0 hs.2.2 hs.2.1 hs.1] at this
